@@ -100,6 +100,9 @@ func (r *modelRun) request(input []byte, fresh bool) *reqObs {
 	}
 	var ac, mc []string
 	for _, c := range r.s.CallLog[ncalls:] {
+		if c.Sym == "_first" {
+			continue // the pre-VM function is not an instruction of the program
+		}
 		ac = append(ac, fmt.Sprintf("%s#%d(%q)", c.Sym, c.K, c.Input))
 	}
 	for _, c := range o.exp.Calls {
